@@ -32,8 +32,9 @@ Go map iteration order: every `range` over a built-in map goes through an `Ord` 
 functions are permutations.  The driver uses `Ord.id`.
 
 Loops that are not structurally recursive (`linked`'s two queue loops, `Close`'s queue loop,
-`isActivated`'s stack loop) take fuel computed from the state; running out of fuel is the
-explicit outcome `Ret.panic` (never reached in the correspondence runs).
+`isActivated`'s stack loop) take fuel computed from the state (`bfsFuel`, `kahnFuel`, `actFuel`);
+running out of fuel is the explicit outcome `Ret.panic`, proved unreachable
+(`C07.no_fuel_exhaustion`).
 -/
 namespace Uniflow.Table
 
@@ -286,14 +287,28 @@ def refCount (refs : List (Nat × PortMap)) : Nat :=
 def specCount (syms : List (Nat × Sym)) : Nat :=
   (syms.map (fun p => (p.2.ports.map (fun q => q.2.length)).sum)).sum
 
-def fuelOf (st : State) : Nat := refCount st.references + specCount st.symbols + st.symbols.length + 2
+/-- Sum of the positive counts of a degree map (bounds the number of "count reached 0" events). -/
+def degSum (d : Deg) : Nat := (d.map (fun p => p.2.2.toNat)).sum
+
+/-- Number of port references in the spec of one symbol. -/
+def refsLen (s : Sym) : Nat := (s.ports.map (fun q => q.2.length)).sum
+
+/-- Fuel of `linked`'s first queue loop: every visited symbol pushes its entries once. -/
+def bfsFuel (st : State) : Nat := 1 + refCount st.references
+
+/-- Fuel of the Kahn queue loop: the initial queue plus one push per count that reaches 0. -/
+def kahnFuel (queue : List Sym) (deg : Deg) : Nat := queue.length + degSum deg
+
+/-- Fuel of `isActivated`'s stack loop: the root, its references, and every present symbol's
+references once. -/
+def actFuel (st : State) (sb : Sym) : Nat := 2 + refsLen sb + specCount st.symbols
 
 /-- `t.linked(sb)` (fixed code). -/
 def linked (o : Ord) (st : State) (sb : Sym) : Option (List Sym) :=
-  match bfs o st (fuelOf st) [sb] [] [] with
+  match bfs o st (bfsFuel st) [sb] [] [] with
   | none => none
   | some deg =>
-    match kahn (fun f c => referrers o (1000 + f) st c) (fuelOf st) [sb] [] deg with
+    match kahn (fun f c => referrers o (1000 + f) st c) (kahnFuel [sb] deg) [sb] [] deg with
     | none => none
     | some (out, deg') =>
       some (out ++ ((o.deg 1 deg').filter
@@ -324,7 +339,7 @@ def actLoop (o : Ord) (st : State) : Nat → List Sym → List Nat → Option Bo
 
 /-- `t.isActivated(sb)`. -/
 def isActivated (o : Ord) (st : State) (sb : Sym) : Option Bool :=
-  actLoop o st (fuelOf st) [sb] []
+  actLoop o st (actFuel st sb) [sb] []
 
 /-! ### exec, load, unload -/
 
@@ -447,7 +462,7 @@ def closeOrder (o : Ord) (st : State) : Option (List Sym) :=
     aset p.2.id (p.2, (((o.ports 4 (match aget p.1 st.references with | none => [] | some m => m)).map
       (fun q => (q.2.length : Int))).sum)) d) []
   let queue := ((o.deg 2 deg).filter (fun p => p.2.2 = 0)).map (·.2.1)
-  match kahn (targetsOf o st) (fuelOf st) queue [] deg with
+  match kahn (targetsOf o st) (kahnFuel queue deg) queue [] deg with
   | none => none
   | some (out, deg') => some (out ++ ((o.deg 3 deg').filter (fun p => p.2.2 ≠ 0)).map (·.2.1))
 
